@@ -1139,10 +1139,10 @@ impl Probe<'_> {
     Some(Obs { engine, oracle, model: defect_model(self.sch, doc, f) })
   }
 
-  /// Greedy minimisation of (document, filter) preserving: engine != oracle, and whether the
-  /// defect model reproduces the engine's verdict.
-  fn minimise(&self, doc: &Value, f: &Fl, model_agrees: bool) -> (Value, Fl) {
-    let keep = |o: Option<Obs>| matches!(o, Some(o) if o.engine != o.oracle && (o.model == o.engine) == model_agrees);
+  /// Greedy minimisation of (document, filter) preserving: the engine's verdict, the oracle's
+  /// opposite verdict, and whether the defect model reproduces the engine's verdict.
+  fn minimise(&self, doc: &Value, f: &Fl, engine_says: bool, model_agrees: bool) -> (Value, Fl) {
+    let keep = |o: Option<Obs>| matches!(o, Some(o) if o.engine == engine_says && o.oracle != engine_says && (o.model == o.engine) == model_agrees);
     let mut d = doc.clone();
     let mut fl = f.clone();
     let mut changed = true;
@@ -1367,7 +1367,7 @@ fn main() {
           // the verdict must not depend on the rest of the corpus: re-observe the document alone
           let alone = probe.observe(d, &f);
           let (md, mf) = match alone {
-            Some(o) if o.engine != o.oracle && (o.model == o.engine) == model_agrees => probe.minimise(d, &f, model_agrees),
+            Some(o) if o.engine == has && o.oracle == want && (o.model == o.engine) == model_agrees => probe.minimise(d, &f, has, model_agrees),
             _ => (d.clone(), f.clone()),
           };
           let mo = probe.observe(&md, &mf);
@@ -1377,7 +1377,7 @@ fn main() {
           let dir_s = if has { "engine-accepts" } else { "engine-rejects" };
           let mut sig = format!("unclassified:{dir_s}:{shape}");
           let mut why = Value::Null;
-          if !matches!(alone, Some(o) if o.engine != o.oracle) {
+          if !matches!(alone, Some(o) if o.engine == has && o.oracle == want) {
             sig = format!("verdict-depends-on-corpus:{dir_s}");
           } else if cand_known {
             probe.budget.set(probe.budget.get().max(0) + 60);
